@@ -34,6 +34,8 @@ def main():
         t1 = time.time()
         rec = V.verify_lemma(f) if kind == "lemma" else V.verify_function(f[0], contract=f[1]) if kind == "variant" else V.verify_function(f)
         name = rec["name"]
+        if os.environ.get("GOVC_ONLY_OB"):
+            rec["obligations"] = [o for o in rec["obligations"] if any(x in o.name for x in os.environ["GOVC_ONLY_OB"].split(","))]
         V.discharge(rec["obligations"])
         bad = [o for o in rec["obligations"] if o.result is None or o.result.status != "unsat"]
         n = len(rec["obligations"])
